@@ -336,16 +336,28 @@ type connState struct {
 	closed     int32
 	closeErr   string
 	afterClose int32
+	blocker    func() // set for the connections that only keep the poller busy
+	echo       int32  // write every chunk back this many times
 }
 
 type peerPlan struct {
 	ID      int    `json:"id"`
-	Role    string `json:"role"` // accepted | added (Dial + Engine.AddConn)
+	// accepted | added (Dial + Engine.AddConn) | dialasync-busy / dialasync-idle (Engine.DialAsync to a peer that speaks
+	// first, with the pollers kept busy / idle while the connect completes) | dial-addconn-greeted (Dial, the peer has
+	// already spoken when AddConn registers the connection)
+	Role string `json:"role"`
 	Bursts  []int  `json:"bursts"`
 	PauseUs []int  `json:"pause_us"`
 	End     string `json:"end"` // halfclose-now | halfclose-later | open
+	// Echo > 0: the data callback writes every chunk back Echo times (a write-back load that builds a backlog, so that
+	// the connection's write interest is switched on and off by Write / flush while it is being read); the peer
+	// drains what comes back slowly. Only the inbound stream is checked here (the outbound one is C01's).
+	Echo    int `json:"echo_factor,omitempty"`
 	total   int
+	greeted bool // the peer speaks first: the first burst is written by the accepting side the moment it accepts
 }
+
+func (p *peerPlan) dialed() bool { return p.greeted }
 
 func genBursts(c cell, r *rand.Rand) ([]int, []int) {
 	rbs, mx := c.effRBS(), c.effMax()
@@ -411,6 +423,10 @@ func (e *streamEnv) state(c *nbio.Conn) *connState {
 
 func (e *streamEnv) onData(c *nbio.Conn, data []byte) {
 	st := e.state(c)
+	if st.blocker != nil {
+		st.blocker()
+		return
+	}
 	if atomic.AddInt32(&st.inCb, 1) > 1 {
 		atomic.AddInt32(&st.overlaps, 1)
 	}
@@ -419,6 +435,12 @@ func (e *streamEnv) onData(c *nbio.Conn, data []byte) {
 	st.ncb++
 	n := st.ncb
 	st.mu.Unlock()
+	if k := atomic.LoadInt32(&st.echo); k > 0 {
+		cp := append([]byte(nil), data...)
+		for i := int32(0); i < k; i++ {
+			c.Write(cp)
+		}
+	}
 	if atomic.LoadInt32(&st.closed) != 0 {
 		atomic.AddInt32(&st.afterClose, 1)
 	}
@@ -495,6 +517,41 @@ func (rt *realTier) runStream(c cell, r *rand.Rand, engineNo int, doIdle bool) {
 	if !hasNow && !rt.noHCNow {
 		plans[0].End = "halfclose-now"
 	}
+	// one accepted peer with a write-back load
+	if r.Intn(2) == 0 {
+		p := plans[np-1]
+		if p.Role == "accepted" && p.total > 0 {
+			p.Echo = 1 + (3<<20)/p.total
+			if p.Echo > 64 {
+				p.Echo = 64
+			}
+		}
+	}
+	// connections the engine dials, to a peer that speaks first
+	nAcc := np
+	for _, role := range []string{"dialasync-busy", "dialasync-idle", "dial-addconn-greeted"} {
+		if role == "dial-addconn-greeted" && r.Intn(2) == 0 {
+			continue
+		}
+		p := &peerPlan{ID: len(plans) + 1, Role: role, greeted: true}
+		p.Bursts, p.PauseUs = genBursts(c, r)
+		if len(p.Bursts) > 4 {
+			p.Bursts, p.PauseUs = p.Bursts[:4], p.PauseUs[:4]
+		}
+		for _, b := range p.Bursts {
+			p.total += b
+		}
+		p.End = []string{"halfclose-later", "open", "open"}[r.Intn(3)]
+		if !rt.noHCNow && r.Intn(4) == 0 {
+			p.End = "halfclose-now"
+		}
+		plans = append(plans, p)
+	}
+	np = len(plans)
+	exp := make([][]byte, np)
+	for k, p := range plans {
+		exp[k] = streamBytes(p.ID, p.total)
+	}
 	replay := map[string]interface{}{"cell": c, "cell_name": c.Name(), "seed": rt.seed, "engine_no": engineNo,
 		"on_data_ptr": usePtr, "peers": plans, "rerun": fmt.Sprintf("readpath -seed %d -cell %s -gate 0", rt.seed, c.Name())}
 
@@ -502,6 +559,29 @@ func (rt *realTier) runStream(c cell, r *rand.Rand, engineNo int, doIdle bool) {
 	var ext net.Listener
 	peers := make([]net.Conn, np)
 	srv := make([]*nbio.Conn, np)
+	var srvMu sync.Mutex
+	getSrv := func(k int) *nbio.Conn {
+		srvMu.Lock()
+		defer srvMu.Unlock()
+		return srv[k]
+	}
+	setSrv := func(k int, nc *nbio.Conn) {
+		srvMu.Lock()
+		srv[k] = nc
+		srvMu.Unlock()
+	}
+	var dl net.Listener
+	var blockerPeers []net.Conn
+	defer func() {
+		for _, p := range blockerPeers {
+			if p != nil {
+				p.Close()
+			}
+		}
+		if dl != nil {
+			dl.Close()
+		}
+	}()
 	defer func() {
 		for _, p := range peers {
 			if p != nil {
@@ -522,7 +602,7 @@ func (rt *realTier) runStream(c cell, r *rand.Rand, engineNo int, doIdle bool) {
 			return nil
 		}
 	}
-	for k, p := range plans {
+	for k, p := range plans[:nAcc] {
 		if p.Role == "added" {
 			var err error
 			extAddr := "127.0.0.1:0"
@@ -560,25 +640,169 @@ func (rt *realTier) runStream(c cell, r *rand.Rand, engineNo int, doIdle bool) {
 				What: fmt.Sprintf("cell %s: connection %d was never opened by the engine (no OnOpen within 8 s)", c.Name(), k+1), Replay: replay})
 			return
 		}
+		if p.Echo > 0 {
+			atomic.StoreInt32(&env.state(srv[k]).echo, int32(p.Echo))
+			go func(x net.Conn) { // slow reader of what comes back
+				b := make([]byte, 32<<10)
+				for {
+					if _, err := x.Read(b); err != nil {
+						return
+					}
+					time.Sleep(300 * time.Microsecond)
+				}
+			}(peers[k])
+		}
+	}
+
+	// data blockers: accepted connections whose data callback sleeps (it runs on the poller where reading is synchronous)
+	nBlk := c.NPoller + 1
+	const blockFor = 25 * time.Millisecond
+	var blkDone int32
+	for i := 0; i < nBlk; i++ {
+		x, err := net.Dial(network, srvAddr)
+		if err != nil {
+			hx.Fatal("dial %s %s: %v", network, srvAddr, err)
+		}
+		blockerPeers = append(blockerPeers, x)
+		bc := waitOpen()
+		if bc == nil {
+			rt.add(hx.Finding{Kind: "oracle", Property: "C02", Signature: "stall-" + c.Class(),
+				What: fmt.Sprintf("cell %s: a connection was never opened by the engine (no OnOpen within 8 s)", c.Name()), Replay: replay})
+			return
+		}
+		st := env.state(bc)
+		st.blocker = func() { time.Sleep(blockFor); atomic.AddInt32(&blkDone, 1) }
+	}
+	// the plain listener the engine dials: it greets the moment it accepts
+	{
+		dlAddr := "127.0.0.1:0"
+		if network == "unix" {
+			rt.sockN++
+			dlAddr = filepath.Join(rt.dir, fmt.Sprintf("d%d.sock", rt.sockN))
+		}
+		var err error
+		dl, err = net.Listen(network, dlAddr)
+		if err != nil {
+			hx.Fatal("listen: %v", err)
+		}
+	}
+	greetCh := make(chan []byte, 64)
+	accCh := make(chan net.Conn, 64)
+	go func() {
+		for {
+			x, err := dl.Accept()
+			if err != nil {
+				return
+			}
+			if gr := <-greetCh; gr != nil {
+				x.Write(gr)
+			}
+			accCh <- x
+		}
+	}()
+	takeAcc := func() net.Conn {
+		select {
+		case x := <-accCh:
+			return x
+		case <-time.After(8 * time.Second):
+			hx.Fatal("the plain listener did not accept the engine's dial")
+			return nil
+		}
+	}
+	dialErr := make([]string, np)
+	dialAsync := func(k int) {
+		greetCh <- exp[k][:plans[k].Bursts[0]]
+		err := g.DialAsync(network, dl.Addr().String(), func(nc *nbio.Conn, err error) {
+			if err != nil {
+				dialErr[k] = fmt.Sprint(err)
+				return
+			}
+			setSrv(k, nc)
+		})
+		if err != nil {
+			hx.Fatal("DialAsync: %v", err)
+		}
+		peers[k] = takeAcc()
+	}
+	for k, p := range plans[nAcc:] {
+		k += nAcc
+		switch p.Role {
+		case "dialasync-busy":
+			// keep the pollers busy while the connect completes and the greeting arrives: dial callbacks that sleep
+			// (they run on the poller when the connect was still in progress) and sleeping data callbacks
+			var cbDone int32
+			for i := 0; i < nBlk; i++ {
+				greetCh <- nil
+				err := g.DialAsync(network, dl.Addr().String(), func(nc *nbio.Conn, err error) {
+					time.Sleep(blockFor)
+					atomic.AddInt32(&cbDone, 1)
+				})
+				if err != nil {
+					hx.Fatal("DialAsync: %v", err)
+				}
+				blockerPeers = append(blockerPeers, takeAcc())
+			}
+			for _, x := range blockerPeers[:nBlk] {
+				x.Write([]byte{0})
+			}
+			time.Sleep(3 * time.Millisecond)
+			dialAsync(k)
+			// let the blockers finish before the next connection is made
+			dlb := time.Now().Add(8 * time.Second)
+			for (atomic.LoadInt32(&cbDone) < int32(nBlk) || atomic.LoadInt32(&blkDone) < int32(nBlk)) && time.Now().Before(dlb) {
+				time.Sleep(time.Millisecond)
+			}
+		case "dialasync-idle":
+			time.Sleep(2 * time.Millisecond)
+			dialAsync(k)
+		case "dial-addconn-greeted":
+			greetCh <- exp[k][:p.Bursts[0]]
+			nc, err := nbio.Dial(network, dl.Addr().String())
+			if err != nil {
+				hx.Fatal("dial: %v", err)
+			}
+			peers[k] = takeAcc()
+			time.Sleep(time.Millisecond) // the greeting is in the socket before the engine registers it
+			rc, err := g.AddConn(nc)
+			if err != nil {
+				hx.Fatal("AddConn: %v", err)
+			}
+			waitOpen()
+			setSrv(k, rc)
+		}
 	}
 
 	// traffic
-	exp := make([][]byte, np)
 	var wg sync.WaitGroup
 	sendErr := make([]string, np)
+	greetStall := make([]bool, np)
 	delivered := func(k int) int {
-		st := env.state(srv[k])
+		nc := getSrv(k)
+		if nc == nil {
+			return 0
+		}
+		st := env.state(nc)
 		st.mu.Lock()
 		defer st.mu.Unlock()
 		return len(st.buf)
 	}
 	for k, p := range plans {
-		exp[k] = streamBytes(p.ID, p.total)
 		wg.Add(1)
 		go func(k int, p *peerPlan) {
 			defer wg.Done()
 			off := 0
 			for i, b := range p.Bursts {
+				if p.greeted && i == 0 {
+					// the greeting was written on accept; it has to be delivered without any further input (in pure
+					// ET nothing would report it again)
+					off += b
+					dl := time.Now().Add(8 * time.Second)
+					for delivered(k) < b && time.Now().Before(dl) {
+						time.Sleep(500 * time.Microsecond)
+					}
+					greetStall[k] = delivered(k) < b
+					continue
+				}
 				peers[k].SetWriteDeadline(time.Now().Add(10 * time.Second))
 				if _, err := peers[k].Write(exp[k][off : off+b]); err != nil {
 					sendErr[k] = fmt.Sprintf("burst %d at offset %d: %v", i, off, err)
@@ -615,7 +839,11 @@ func (rt *realTier) runStream(c cell, r *rand.Rand, engineNo int, doIdle bool) {
 	for {
 		done := true
 		for k := range plans {
-			st := env.state(srv[k])
+			nc := getSrv(k)
+			if nc == nil {
+				continue
+			}
+			st := env.state(nc)
 			if delivered(k) < plans[k].total && atomic.LoadInt32(&st.closed) == 0 && sendErr[k] == "" {
 				done = false
 			}
@@ -630,7 +858,25 @@ func (rt *realTier) runStream(c cell, r *rand.Rand, engineNo int, doIdle bool) {
 	// oracle
 	bad := false
 	for k, p := range plans {
-		st := env.state(srv[k])
+		suffix := ""
+		if p.dialed() {
+			suffix = "-dialed"
+		}
+		if getSrv(k) == nil {
+			bad = true
+			rt.add(hx.Finding{Kind: "oracle", Property: "C02", Signature: "stall-" + c.Class() + suffix,
+				What:   fmt.Sprintf("cell %s peer %d (%s): the dial callback never reported the connection (%s)", c.Name(), p.ID, p.Role, dialErr[k]),
+				Replay: replay})
+			continue
+		}
+		if greetStall[k] {
+			bad = true
+			rt.add(hx.Finding{Kind: "oracle", Property: "C02", Signature: "stall-" + c.Class() + suffix,
+				What: fmt.Sprintf("cell %s peer %d (%s): the %d bytes the peer sent the moment it accepted the engine's connection were not delivered within 8 s "+
+					"although nothing else was pending (they arrived together with the completion of the connect)", c.Name(), p.ID, p.Role, p.Bursts[0]),
+				Replay: replay})
+		}
+		st := env.state(getSrv(k))
 		st.mu.Lock()
 		got := append([]byte(nil), st.buf...)
 		ncb := st.ncb
@@ -650,6 +896,9 @@ func (rt *realTier) runStream(c cell, r *rand.Rand, engineNo int, doIdle bool) {
 		}
 		bad = true
 		sig, what := classifyStream(exp[k], got, closed, p.End, c)
+		if sig != "duplicate-delivery" {
+			sig += suffix
+		}
 		rt.add(hx.Finding{Kind: "oracle", Property: "C02", Signature: sig,
 			What: fmt.Sprintf("cell %s peer %d (%s, end=%s): sent %d bytes, data callback got %d in %d calls; closed=%v (%s) sendErr=%q: %s",
 				c.Name(), p.ID, p.Role, p.End, len(exp[k]), len(got), ncb, closed, cerr, sendErr[k], what),
@@ -668,6 +917,9 @@ func (rt *realTier) runStream(c cell, r *rand.Rand, engineNo int, doIdle bool) {
 	for _, p := range plans {
 		rep.Stat("R.end." + p.End)
 		rep.Stat("R.role." + p.Role)
+		if p.Echo > 0 {
+			rep.Stat("R.write-back-load")
+		}
 	}
 	if len(rep.Samples) < 2 {
 		rep.Sample(replay)
